@@ -317,3 +317,181 @@ Theorem C09_x86_steps_run :
     exists n, forall fuel, run_chunk (n + fuel) im pc s = run_chunk fuel im pc' s'.
 Proof. exact steps_run_chunk. Qed.
 Print Assumptions C09_x86_steps_run.
+
+(* ====================================================================================== *)
+(* PROGRAMS generate well-formed allocator traces (round 2).
+   Sem/AxHeap.v instruments the linear machine `exec_linear` with the abstract allocator: every
+   environment entry carries the word of its first temporary (pointer, 0 for integers and for
+   field-less objects), every step emits the allocator operations the code of `code_statement`
+   performs for that statement (substitute: erase / share_n per binding in the key order of
+   `Backend.transpose`; let / create: OAllocObj of the stored pointers; switch / invoke: OLoadObj of
+   the consumed object), and the heap component evolves by Heap.step only. *)
+From SCC Require Import Lang.AxSyn Model.Linearize Model.LinCheck Sem.AxHeap.
+From SCC Require Import Proof.LinTyping Proof.LinearizeProof Proof.AxHeapErase Proof.AxHeapTyping Proof.HeapRep Proof.AxHeapSafe
+  Proof.AxHeapProps Proof.AxHeapExample Proof.AxHeapExampleFacts.
+
+(* the instrumentation does not change what is observed: erasing pointers and heap gives exec_linear *)
+Theorem C09_instrumented_machine_erases : forall p fuel c out tr,
+  fst (fst (hexec fuel p c out tr)) = AxSem.exec_linear fuel p (erase_env (hc_env c)) (hc_stmt c) out.
+Proof. exact hexec_erase. Qed.
+Print Assumptions C09_instrumented_machine_erases.
+
+Theorem C09_instrumented_run_observes_run_linear : forall fuel base p args,
+  match hrun_prog fuel base p args with
+  | Some r => fst (fst r) = AxSem.run_linear fuel p args
+  | None => exists w, AxSem.run_linear fuel p args = ([], AxSem.OStuck w)
+  end.
+Proof. exact hrun_prog_erase. Qed.
+Print Assumptions C09_instrumented_run_observes_run_linear.
+
+(* what the runner returns is a reachable configuration with the trace it returns *)
+Theorem C09_runner_reaches : forall fuel base p args o c tr,
+  hrun_prog fuel base p args = Some (o, c, tr) -> hreach base p args tr c.
+Proof. exact hrun_prog_reach. Qed.
+Print Assumptions C09_runner_reaches.
+
+(* type preservation of the machine: the environment stays the typing context of the statement *)
+Theorem C09_machine_type_preservation : forall p he hs s ops he' s' pr,
+  lin_check_prog p = true -> cfg_wt p he s -> hstep p he hs s = HStep ops he' s' pr -> cfg_wt p he' s'.
+Proof. exact hstep_wt. Qed.
+Print Assumptions C09_machine_type_preservation.
+
+(* ONE STEP: in a configuration satisfying the invariant (InvA with roots = pointers of the
+   environment, values represented, chains owned) every operation of the step meets its precondition
+   in the state in which it is executed, and the invariant holds afterwards *)
+Theorem C09_program_step_safe : forall base p he hs s ops he' s' pr,
+  cfg_wt p he s -> HInv base he hs -> hstep p he hs s = HStep ops he' s' pr ->
+  pre_trace hs (roots he) ops /\
+  Permutation (snd (grun ops (hs, roots he))) (roots he') /\
+  HInv base he' (hrun ops hs).
+Proof. exact hstep_safe. Qed.
+Print Assumptions C09_program_step_safe.
+
+(* THE MAIN THEOREM.  For a linearity-checked program whose entry takes integers, in every
+   configuration c reached from the initial one (allocator state `init base`) with operation trace tr:
+   tr satisfies `pre_trace` (so every theorem above about traces applies to tr), the heap of c is the
+   result of tr, the ghost roots are the non-null pointers of the environment, the strengthened
+   invariant holds with exactly these roots, every value is represented at its pointer, and the
+   environment is typed by the context of the statement. *)
+Theorem C09_program_heap_safe : forall base p args tr c,
+  lin_check_prog p = true -> entry_ext p = true -> 0 < base ->
+  hreach base p args tr c ->
+  pre_trace (init base) [] tr /\
+  hc_heap c = fst (grun tr (init base, [])) /\
+  Permutation (snd (grun tr (init base, []))) (roots (hc_env c)) /\
+  (exists hl fl cl, InvA base (hc_heap c) (roots (hc_env c)) hl fl cl) /\
+  (exists lk, KI lk (hc_heap c) (roots (hc_env c)) /\ env_rep lk (hc_heap c) (hc_env c)) /\
+  cfg_wt p (hc_env c) (hc_stmt c).
+Proof. exact program_heap_safe. Qed.
+Print Assumptions C09_program_heap_safe.
+
+(* roots = context: the bindings reconstructed from the environment (`ctx_of`: name, kind and type of
+   each value) ARE the typing context cx of the statement - the context `code_statement` threads -
+   and the roots are the pointers of its non-ext variables (an ext variable has pointer 0) *)
+Theorem C09_program_roots_are_context : forall base p args,
+  lin_check_prog p = true -> entry_ext p = true -> 0 < base ->
+  forall tr c, hreach base p args tr c ->
+  (exists hl fl cl, InvA base (hc_heap c) (roots (hc_env c)) hl fl cl) /\
+  (exists cx, lin_wt (sigs_of p) cx (hc_stmt c) /\ ctx_of (hc_env c) = cx /\
+              forall en, In en (hc_env c) -> chi_of (h_val en) = AxSyn.Ext -> h_ptr en = 0).
+Proof. exact prog_inv. Qed.
+Print Assumptions C09_program_roots_are_context.
+
+(* the same for everything the compiler's linearization pass produces from a checked named program *)
+Theorem C09_compiled_program_heap_safe : forall base p args tr c,
+  prog_ok p = true -> entry_ext (linearize p) = true -> 0 < base ->
+  hreach base (linearize p) args tr c ->
+  pre_trace (init base) [] tr /\
+  (exists hl fl cl, InvA base (hc_heap c) (roots (hc_env c)) hl fl cl).
+Proof. exact compiled_program_heap_safe. Qed.
+Print Assumptions C09_compiled_program_heap_safe.
+
+Theorem C09_program_no_use_after_release : forall base p args,
+  lin_check_prog p = true -> entry_ext p = true -> 0 < base ->
+  forall tr c b, hreach base p args tr c -> reach (m (hc_heap c)) (roots (hc_env c)) b ->
+  exists hl fl cl, InvA base (hc_heap c) (roots (hc_env c)) hl fl cl /\ In b cl /\ ~ In b hl /\ ~ In b fl.
+Proof. exact prog_no_use_after_release. Qed.
+Print Assumptions C09_program_no_use_after_release.
+
+Theorem C09_program_no_double_release : forall base p args,
+  lin_check_prog p = true -> entry_ext p = true -> 0 < base ->
+  forall tr c en, hreach base p args tr c -> In en (hc_env c) -> h_ptr en <> 0 ->
+  exists hl fl cl, InvA base (hc_heap c) (roots (hc_env c)) hl fl cl /\ ~ In (h_ptr en) (hl ++ fl) /\ In (h_ptr en) cl.
+Proof. exact prog_no_double_release. Qed.
+Print Assumptions C09_program_no_double_release.
+
+Theorem C09_program_classification : forall base p args,
+  lin_check_prog p = true -> entry_ext p = true -> 0 < base ->
+  forall tr c a, hreach base p args tr c -> blk base a -> a < frontier (hc_heap c) ->
+  exists hl fl cl, InvA base (hc_heap c) (roots (hc_env c)) hl fl cl /\
+   ((In a hl /\ ~ In a fl /\ ~ In a cl) \/ (In a fl /\ ~ In a hl /\ ~ In a cl) \/
+    (In a cl /\ ~ In a hl /\ ~ In a fl /\
+     (reach (m (hc_heap c)) (roots (hc_env c)) a \/ reach (m (hc_heap c)) (deferred_slots (hc_heap c) fl) a))).
+Proof. exact prog_classification. Qed.
+Print Assumptions C09_program_classification.
+
+(* no leak at exit: when no variable holds a pointer every block is free, deferred, or waits beneath
+   a deferred block *)
+Theorem C09_program_exit_no_leak : forall base p args,
+  lin_check_prog p = true -> entry_ext p = true -> 0 < base ->
+  forall tr c a, hreach base p args tr c -> roots (hc_env c) = [] -> blk base a -> a < frontier (hc_heap c) ->
+  exists hl fl cl, InvA base (hc_heap c) [] hl fl cl /\
+    (In a hl \/ In a fl \/ (In a cl /\ reach (m (hc_heap c)) (deferred_slots (hc_heap c) fl) a)).
+Proof. exact prog_exit_no_leak. Qed.
+Print Assumptions C09_program_exit_no_leak.
+
+(* the heap-side ingredients: what `alloc_object` builds is read back by `obj_fields`, chains are
+   owned, everything reachable from the old roots keeps its slots; the load of a represented object
+   meets its precondition and keeps the chain invariant *)
+Theorem C09_alloc_object_represents : forall base lk s R R0 hl fl cl fields,
+  InvA base s R hl fl cl -> KI lk s R -> Permutation R (nz fields ++ R0) -> fields <> [] ->
+  exists lk' j' hl' fl' cl',
+    let r := alloc_object fields s in
+    InvA base (snd r) (fst r :: R0) hl' fl' cl' /\ KI lk' (snd r) (fst r :: R0) /\ fst r <> 0 /\
+    lk' (fst r) = nlinks (length fields) /\ links_ok (lk' (fst r)) (m (snd r)) (fst r) /\
+    obj_fields (lk' (fst r)) (m (snd r)) (fst r) = repeat 0 j' ++ fields /\
+    (forall b, reach (m s) R b ->
+       ps (m (snd r) b) = ps (m s b) /\ lk' b = lk b /\ reach (m (snd r)) (fst r :: R0) b).
+Proof. exact HeapRepAlloc.alloc_object_rep. Qed.
+Print Assumptions C09_alloc_object_represents.
+
+Theorem C09_load_object_precondition_from_chain_invariant : forall base lk s R R0 hl fl cl p k j pl,
+  InvA base s R hl fl cl -> KI lk s R -> Permutation R (p :: R0) -> p <> 0 ->
+  lk p = k -> obj_fields k (m s) p = repeat 0 j ++ pl ->
+  pre s R (OLoadObj k p) /\
+  (exists hl' fl' cl', InvA base (load_object k p s) (nz pl ++ R0) hl' fl' cl') /\
+  KI lk (load_object k p s) (nz pl ++ R0).
+Proof. exact HeapRepLoad.load_object_KI. Qed.
+Print Assumptions C09_load_object_precondition_from_chain_invariant.
+
+(* ---------- non-vacuity: a concrete program (Proof/AxHeapExample.v) ---------- *)
+(* named AxCut, checked; its linearization (by the model of the compiler pass) is linearity-checked
+   and takes integers *)
+Example C09_example_program_checked : prog_ok hx_prog = true /\ lin_check_prog hx_lin = true /\ entry_ext hx_lin = true.
+Proof. exact hx_checked. Qed.
+Print Assumptions C09_example_program_checked.
+
+(* its run with 3 iterations performs these 32 operations (allocation of 0-, 1- and 2-block objects,
+   sharing, destructive load of a chain, non-destructive and destructive load of a shared list,
+   erasure onto the deferred list, recycling, a closure environment) ... *)
+Example C09_example_program_trace : hx_trace 3 =
+  [OAllocObj [0]; OAllocObj []; OAllocObj [0; 0]; OAllocObj [0; 4160]; OShare 4224 1;
+   OAllocObj [0; 0; 4224; 0; 4224]; OLoadObj 1 4352; OLoadObj 0 4224; OErase 4160; OLoadObj 0 4224; OErase 4160;
+   OAllocObj []; OAllocObj [0; 0]; OAllocObj [0; 4224]; OShare 4288 1;
+   OAllocObj [0; 0; 4288; 0; 4288]; OLoadObj 1 4416; OLoadObj 0 4288; OErase 4224; OLoadObj 0 4288; OErase 4224;
+   OAllocObj []; OAllocObj [0; 0]; OAllocObj [0; 4288]; OShare 4352 1;
+   OAllocObj [0; 0; 4352; 0; 4352]; OLoadObj 1 4160; OLoadObj 0 4352; OErase 4288; OLoadObj 0 4352; OErase 4288;
+   OLoadObj 0 4096].
+Proof. exact hx_trace_3. Qed.
+Print Assumptions C09_example_program_trace.
+
+(* ... it is a reachable configuration's trace, so by C09_program_heap_safe every precondition holds
+   along it; the boolean form of the preconditions, evaluated, agrees *)
+Example C09_example_program_reachable :
+  exists c, hreach 4096 hx_lin [3; 100] (hx_trace 3) c /\ frontier (hc_heap c) = 4480.
+Proof. exact (hx_reach 3 _ _ hx_frontier_3). Qed.
+Print Assumptions C09_example_program_reachable.
+Example C09_example_program_trace_wf :
+  pre_trace (init 4096) [] (hx_trace 3) /\ pre_traceb (init 4096) [] (hx_trace 3) = true.
+Proof. exact (conj (hx_trace_wf 3 _ _ hx_frontier_3) hx_trace_wf_computed). Qed.
+Print Assumptions C09_example_program_trace_wf.
